@@ -212,7 +212,7 @@ class HistoryCorr(Corr):
                 v0 = fr.pop("ests")
                 v1 = [dict(e) for e in v0[: max(0, len(v0) - 1)]]
                 rng.shuffle(v1)
-                if task == "tracking" and i >= 1 and len(v0) >= 2 and rng.random() < 0.6:
+                if task == "tracking" and i >= 1 and len(v0) >= 2 and rng.random() < 0.9:
                     # tracked estimates change identity between frames (swap / new id), so that the tracking score of a frame really
                     # depends on WHICH evaluation preceded it
                     a, b = rng.sample(range(len(v0)), 2)
